@@ -118,6 +118,31 @@ pub fn rpsi<S: Src, const L: usize, const B: usize>(s: &mut S) {
     }
 }
 
+/// RPSI built through the owned-data path, payload type set before the conversion.
+pub fn rpsi_owned<S: Src>(s: &mut S) {
+    let c = FbCfg::draw(s, false);
+    s.assume(c.padding <= 8);
+    let bits = Blob::<6>::draw(s, 6);
+    let e = RpsiCfg::draw_with(s, bits);
+    let q = s.upto(48);
+    let f = Rpsi::builder().payload_type(e.payload_type).native_data_owned(e.bits.as_bytes(), e.overrun);
+    let mut buf = [0xA5u8; 32];
+    match build(&c, &f, &mut buf) {
+        Ok(n) => {
+            let p = parse_back!(PayloadFeedback, c, FMT_RPSI, buf, n);
+            let r = p.parse_fci::<Rpsi>().expect("RPSI FCI does not decode");
+            assert!(r.payload_type() == e.payload_type, "payload type lost");
+            let (bytes, ignore) = r.bit_string();
+            assert!(8 * bytes.len() - ignore == e.nbits(), "bit string length differs");
+            if q < e.nbits() {
+                assert!(bit(bytes, q) == bit(&e.bits.bytes, q), "bit differs");
+            }
+            vcover!(e.payload_type > 0 && e.bits.len > 0, "owned data with a payload type");
+        }
+        Err(_) => assert!(!padding_ok(c.padding) || !e.valid(), "builder rejected a legal RPSI"),
+    }
+}
+
 /// NACK through the real builder with `N` symbolic sequence numbers: decoding yields exactly
 /// the set, ascending, each once.
 pub fn nack<S: Src, const N: usize, const B: usize>(s: &mut S) {
@@ -303,6 +328,7 @@ common::register! {
     q_sli_1 = sli::<_, 1, 32> => 3,
     q_sli_3 = sli::<_, 3, 40> => 5,
     q_rpsi = rpsi::<_, 8, 40> => 2,
+    q_rpsi_owned = rpsi_owned => 2,
     q_nack_1 = nack::<_, 1, 32> => 3,
     q_nack_unit_4 = nack_unit::<_, 4> => 6,
     t_nack_unit_5 = nack_unit::<_, 5> => 7,
